@@ -153,3 +153,76 @@ Definition key_shape (b : sbody) : list (Z * nat) :=
   match b with SMulti _ keys => map (fun k => (mk k, length (mvals k))) keys | _ => [] end.
 Definition valueless (b : sbody) : nat :=
   match b with SMulti _ keys => length (filter (fun k => match mvals k with [] => true | _ => false end) keys) | _ => O end.
+
+(* ================================================================ round 3 *)
+(* ---- the structure a target has after an ELEMENT-WISE move (unequal non-propagating allocators; MergeFrom / Add loop):
+   a fresh structure built by inserting the source's items in traversal order.  Hash: one bucket array (the incremental
+   relocation completes inside every insertion); multimap: only keys that have values arrive (the loop runs over
+   (key, value) pairs); tree: the shape of a tree built by ascending insertion -- given as `fresh_shape`, which the tie
+   takes from an independently built real object (ascending insertion of the same number of items). *)
+Fixpoint reshape (sh : list (nat * nat)) (its : list Z) : list tnode :=
+  match sh with
+  | [] => []
+  | (d, c) :: r => mkNode (0, 0) (firstn c its) d :: reshape r (skipn c its)
+  end.
+Definition has_values (k : mkey) : bool := match mvals k with [] => false | _ => true end.
+Definition traversal_normal_form (fresh_shape : list (nat * nat)) (b : sbody) : sbody :=
+  match b with
+  | SHash gens => SHash gens
+  | STree p nodes => STree p (reshape fresh_shape (flat_map nitems nodes))
+  | SMulti bk keys => SMulti bk (filter has_values keys)
+  | STable raws rows free => STable raws rows free
+  end.
+Definition s_elementwise_body (m : mgr) (newcrew : Z) (fresh_shape : list (nat * nat)) (b : sbody) (w : world) : sbody * world :=
+  s_copy_body m newcrew (traversal_normal_form fresh_shape b) w.
+(* the source afterwards: same crew, same storage skeleton, no items (sets keep params + an empty root / their newest
+   bucket array; the multimap wrapper calls clear()) -- kept observational in the driver, see NOTES.md *)
+
+(* ---- TreeSet::MergeTo into a NON-empty set: node pools and their buffers.
+   A tree's nodes live in buffers of the memory pools inside its NodeParams.  Fast path (equal managers, key ranges do not
+   interleave): the two trees are joined under dst's root and `dst.mNodeParams->MergeFrom( *src.mNodeParams)` relinks
+   every buffer of src's pools into dst's pools (the list surgery of MemPool::MergeFrom is property C09; here only its
+   ownership effect matters).  Element-wise path (unequal managers, or interleaving keys): every item is extracted from
+   src and inserted into dst; src's nodes go back to src's pools, dst allocates new nodes from its own. *)
+Record pnode := mkPNode { pn_buf : Z; pn_items : list Z }.            (* pn_buf: id of the pool buffer holding the node *)
+Record mtree := mkMTree { m_crew : crewd; m_bufs : list block; m_nodes : list pnode }.
+
+Definition nodes_in_own_bufs (t : mtree) : bool :=
+  forallb (fun n => existsb (Z.eqb (pn_buf n)) (map fst (m_bufs t))) (m_nodes t).
+Definition m_items (t : mtree) : list Z := flat_map pn_items (m_nodes t).
+
+(* fast path; `joined` = dst's and src's nodes after the join (same buffers, the one relocated separator item aside) *)
+Definition merge_fast (dst src : mtree) : mtree * mtree :=
+  (mkMTree (m_crew dst) (m_bufs dst ++ m_bufs src) (m_nodes dst ++ m_nodes src),
+   mkMTree (m_crew src) [] []).
+(* element-wise path: dst gets n fresh nodes in (possibly new) buffers of its own pools; src keeps its buffers, no nodes *)
+Definition merge_elementwise (dst src : mtree) (w : world) : mtree * mtree * world :=
+  let its := m_items src in
+  match its with
+  | [] => (dst, src, w)
+  | _ => let (nb, w1) := alloc (cmgr (m_crew dst)) w in
+         (mkMTree (m_crew dst) (m_bufs dst ++ [nb]) (m_nodes dst ++ [mkPNode (fst nb) its]),
+          mkMTree (m_crew src) (m_bufs src) [],
+          emit (map EMove its ++ map EDestroy its) w1)
+  end.
+
+(* ---- DataTable indexes: unique / multi hash indexes over the raws *)
+Record tindex := mkIdx { iunique : bool; iblocks : list block; ientries : nat }.
+Record stable := mkSTable { t_body : sbody; t_idx : list tindex }.
+Fixpoint copy_idxs (m : mgr) (nrows : nat) (is : list tindex) (w : world) : list tindex * world :=
+  match is with
+  | [] => ([], w)
+  | i :: r =>
+      (* DataTable(const&): mIndexes.Assign(table.mIndexes) re-creates every index definition; pvFill then adds each
+         imported row to every index: storage only if there are rows *)
+      let (bs, w1) := match nrows with O => ([], w) | _ => let (b, w1) := alloc m w in ([b], w1) end in
+      let (r', w2) := copy_idxs m nrows r w1 in
+      (mkIdx (iunique i) bs nrows :: r', w2)
+  end.
+Definition table_rows (b : sbody) : nat := match b with STable _ rows _ => length rows | _ => O end.
+Definition s_copy_table (m : mgr) (newcrew : Z) (t : stable) (w : world) : stable * world :=
+  let (b', w1) := s_copy_body m newcrew (t_body t) w in
+  let (is', w2) := copy_idxs m (table_rows (t_body t)) (t_idx t) w1 in
+  (mkSTable b' is', w2).
+Definition idx_blocks (t : stable) : list block := flat_map iblocks (t_idx t).
+Definition idx_shape (t : stable) : list (bool * nat) := map (fun i => (iunique i, ientries i)) (t_idx t).
